@@ -160,6 +160,9 @@ def execute(ctx, case):
     dn = NormalDataset(mu_pos=mu_p, mu_neg=mu_n, sigma_pos=sp, sigma_neg=sn, score_class=sc, n=23, p_pos=0.25)
     smp = dn.sample(rng=np.random.default_rng(5))
     C(len(smp.pos) + len(smp.neg) == 23, "sample(): n given in the constructor is not used", "data-sample-ctor-n")
+    d_pos_ = NormalDataset(mu_p, mu_n, sp, sn, 0.25, 23, sc)  # the documented field order: mu_pos, mu_neg, sigma_pos, sigma_neg, p_pos, n, score_class
+    C(d_pos_ == dn and d_pos_.sigma_pos == sp and d_pos_.sigma_neg == sn and d_pos_.mu_neg == mu_n and d_pos_.p_pos == 0.25 and d_pos_.n == 23,
+      "NormalDataset built positionally differs from the same arguments given by keyword", "data-positional", got=str(d_pos_), want=str(dn))
     smp41, smp_pp = dn.sample(n=41, rng=np.random.default_rng(5)), dn.sample(p_pos=1.0, rng=np.random.default_rng(5))
     C(len(smp41.pos) + len(smp41.neg) == 41 and len(smp_pp.pos) == 23 and len(smp_pp.neg) == 0, "sample(): an explicit n / p_pos does not win over the one stored on the dataset", "data-sample-explicit-wins",
       got=[len(smp41.pos) + len(smp41.neg), len(smp_pp.pos), len(smp_pp.neg)])
